@@ -24,6 +24,11 @@ SHORT = {
  "C16": "level check behind the cache answer of `read -h`", "C01e": "SYN branch guarded by `!sending` instead of the state", "C02e": "SYN with buffered data passes although a request is current", "C03e": "adapter ERROR frame no longer withdraws the START", "C04d": "retry counter reset after the request was handed to the queue", "C15e": "MM-vs-MS decision by own address instead of isMaster", "C07d": "24:00:ss accepted on write (time types)", "C08d": "unavailable conditional alternative ends the bucket scan", "C09d": "field index translation drops the name filter", "C12d": "stream flags no longer reset before a number", "C16d": "ACL lines append instead of replace", "C05c": "backslash not escaped in JSON strings", "C06c": "symmetric range check rejects the most negative raw value", "C10c": "single field claims its length in both parts", "C11c": "doubled ESC accepted by parseHexEscaped", "C13c": "prepared request counts as seen", "C14c": "RESETTED leaves m_arbitrationCheck set", "C17c": "front insertion resets m_pollOrder", "C18c": "topic match uses rfind", "C19c": "quote after separator inside quoted text reopens", "C16b": "HTTP user without secret keeps the user's levels", "C16c": None,
  "C17": "`setPollPriority` pushes back instead of pulling forward", "C17b": "`clear()` of any map resets the shared `g_lastPollOrder`",
  "C18": "blank runs inside quotes collapsed", "C18b": "leading-slash requirement of the HTTP target dropped",
+ "C04e": "requests queued while there is already no signal are no longer drained", "C09e": "`checkId` matches a part on ANY equal suffix byte",
+ "C11d": "inverse of the +5 mapping without the modulo-256 wrap (0x04 / 0xFF)", "C12e": "derive cache key takes min/max/inc from the base type: ranged template and plain type collide",
+ "C13e": "exclusive `<N` loses its -1", "C14e": "RESETTED overwrites an arbitration result decoded earlier in the same chunk",
+ "C16e": "level checked on the first-defined variant, the available variant returned", "C17e": "`setPollPriority` re-bases forward on every priority change",
+ "C18e": "hex payload: per-token even-length check replaced by one on the concatenation", "C19e": "two-stage derive records the intermediate type as base: dump writes only the last divisor factor",
  "C19": "chain part IDs dumped in decimal", "C19b": "`dumpString` skips the second of two adjacent quotes",
 }
 rows = []
@@ -39,6 +44,8 @@ for d in sorted(glob.glob("/verif/seeded/*/")):
     strengthened = ""
     if m.get("caught_by_other_property"):
         first, strengthened = "outside", "outside this property as stated; caught by the %s check" % m["caught_by_other_property"]
+    elif m.get("outside_property"):
+        first, strengthened = "outside", m["outside_property"][:330]
     elif m.get("not_detected"):
         first, strengthened = "missed", "**not caught** (needs a forced thread schedule + poisoning of deleted requests; see below)"
     elif first == "missed":
